@@ -30,6 +30,11 @@ def _worker(args):
     t = time.time()
     budget = float(os.environ.get("SX_JOB_BUDGET_S", "0") or 0) or getattr(mod, "JOB_BUDGET_S", 900)
     rt.ctx.deadline = t + budget
+    import faulthandler
+
+    # hard stop for a job that neither finishes nor reaches the budget check (deadlock, runaway solver call): the worker
+    # process exits, the pool reports it and the job is retried / reported inconclusive
+    faulthandler.dump_traceback_later(budget + 420, exit=True)
     res = {"job": job, "violations": _Capped(), "witnesses": [], "inconclusive": [], "notes": [], "obligations": 0}
     try:
         mod.run_job(job, res)
@@ -39,6 +44,7 @@ def _worker(args):
         res["inconclusive"].append(f"harness assertion: {_msg(e)} @ {_where(e)}")
     except Exception as e:  # noqa: BLE001
         res["inconclusive"].append(f"harness error {type(e).__name__}: {_msg(e)} @ {_where(e)}")
+    faulthandler.cancel_dump_traceback_later()
     res["violations"] = list(res["violations"])
     res["stats"] = dict(rt.ctx.stats)
     res["functions"] = sorted(rt.ctx.entered)
